@@ -79,6 +79,31 @@ def run(ctx):
                             det.update({"issue": "not the exact tail probability", "returned": r[1:], "expected": want})
                             ctx.violation("oracle", det, site="binomial_p"); continue
                     ops.append(f"binomp|{alt}|{x}|{n}|{rat(p)}"); meta.append((det, r))
+    # ---- sequences of calls with identical arguments in every order of the alternatives: a value must not depend
+    #      on which alternative was asked for before
+    for _ in range(ctx.n(400, 4000)):
+        order = ctx.rng.sample(ALTS, 3) + [ctx.rng.choice(ALTS)]
+        if ctx.rng.random() < 0.5:
+            n = ctx.rng.randint(1, 30); x = ctx.rng.randint(0, n); p = ctx.rng.choice(grid)
+            want = binom_exact(x, n, p)
+            got = [guarded(utils.binomial_p, x, n, float(p), a) for a in order]
+            det = {"call": "binomial_p", "x": x, "n": n, "p": str(p), "order_of_alternatives": order}
+            site = "binomial_p"
+        else:
+            N = ctx.rng.randint(1, 30); n = ctx.rng.randint(0, N); G = ctx.rng.randint(0, N)
+            x = ctx.rng.randint(max(0, n - (N - G)), min(n, G)) if max(0, n - (N - G)) <= min(n, G) else 0
+            if x > min(n, G):
+                continue
+            want = hyper_exact(x, N, n, G)
+            got = [guarded(utils.hypergeometric, x, N, n, G, a) for a in order]
+            det = {"call": "hypergeometric", "x": x, "N": N, "n": n, "G": G, "order_of_alternatives": order}
+            site = "hypergeometric"
+        ctx.case(("seq", repr(det)), True); ctx.count("call-sequences")
+        for a, r in zip(order, got):
+            if r[0] != "ok" or not close(r[1], want[a]):
+                det.update({"issue": f"'{a}' called after {order[:order.index(a)]} is not the exact tail probability", "alternative": a,
+                            "returned": str(r[1:])[:80], "expected": want[a]})
+                ctx.violation("oracle", det, site=site); break
     # ---- less(x) + greater(x+1) = 1 and monotonicity on the implementation
     for _ in range(ctx.n(150, 1500)):
         N = ctx.rng.randint(1, 30); n = ctx.rng.randint(0, N); G = ctx.rng.randint(0, N)
